@@ -441,6 +441,10 @@ def mk_val(v, shape=None):
     if isinstance(v, dict):
         return {k: mk_val(w, shape) for k, w in v.items()}
     if v[0] == "t":
+        if isinstance(v[1], list):
+            # a value handed to a lazy stack: one number per member along the stack dimension (harness/c04_lazy.py)
+            t = T["torch"].tensor(v[1]).reshape((len(v[1]),) + (1,) * (len(shape) - 1))
+            return t.expand(shape).clone()
         return T["torch"].full(shape, v[1])
     return f"s{v[1]}"
 
@@ -532,8 +536,9 @@ def snap(td, depth=0):
     """structure of the subject read from the raw storage (not through the API under test)"""
     T = _imports()
     out = []
-    if depth > 12:
-        return ["?", "deeper than 12 levels (cyclic storage?)"]
+    if depth > 60:
+        # histories of the thorough tier legitimately reach 13+ levels (renames into the own subtree, unflatten_keys)
+        return ["?", "deeper than 60 levels (cyclic storage?)"]
     if not isinstance(td, T["TensorDict"]) and hasattr(td, "tensordicts"):
         # lazy stack: the storage is the members'; homogeneous by construction, anything else is reported
         ms = [snap(m, depth + 1) for m in td.tensordicts]
@@ -1090,6 +1095,14 @@ class HistoryTimeout(BaseException):
     pass
 
 
+def run_any(args):
+    """pool worker: lazy stacks with the model (harness/c04_lazy.py) or the subjects of this file"""
+    if str(args[3]).startswith("lazy-"):
+        from . import c04_lazy
+        return c04_lazy.run_lazy_history(args)
+    return run_history(args)
+
+
 def run_history(args):
     """worker; never raises: an exception escaping the harness's own handling (e.g. RecursionError on a storage the
     implementation made cyclic) is itself reported as an oracle failure of the history"""
@@ -1366,8 +1379,11 @@ def main(R):
         "paths through a NON-TENSOR leaf are never generated (NonTensorData keeps a hidden storage; outside the model)",
         "after every step the oracle's reference is re-read from the raw storage (_tensordict), so one divergence is reported once",
         "order of keys is compared with the model only; the oracle compares key sets / pair sets / sortedness",
-        "model correspondence: TensorDict subject only; lazy stacks (homogeneous, tensor leaves, restricted operation set) "
-        "and tensorclass-held tensordicts are checked by the oracle only",
+        "model correspondence: TensorDict subjects, and lazy stacks of 2-3 TensorDict members with tensor leaves (subjects lazy-hom: "
+        "same keys in every member, lazy-het: keys of some members only, tensor/node clashes) for every operation except "
+        "split_keys and to_dict; the older 'lazy' subject (split_keys drawn) and tensorclass-held tensordicts are oracle-only",
+        "lazy-het: the oracle checks the READ API against the nested dict the stack denotes (keys of every member, values = "
+        "list of the members' values) in every state and the effect of an operation only when the members have the same keys",
         "lazy stacks: unflatten_keys (its result depends on the key iteration order, which is not insertion order for a "
         "lazy stack) and in-place select / exclude / flatten_keys / split_keys are not drawn",
     ]
@@ -1389,8 +1405,14 @@ def main(R):
     nl = 150 if R.quick else 800
     jobs += [(R.rng.getrandbits(48), 16, R.quick, "lazy", None) for _ in range(nl)]
     jobs += [(R.rng.getrandbits(48), 16, R.quick, "tc", None) for _ in range(100 if R.quick else 500)]
-    jobs = corpus + jobs
+    # lazy stacks with the MODEL speaking for them (Model/C04_Lazy.v): same-key members and members with keys of their own
+    lnops = 14 if R.quick else 30
+    ljobs = [(R.rng.getrandbits(48), lnops, R.quick, "lazy-hom", None) for _ in range(140 if R.quick else 700)]
+    ljobs += [(R.rng.getrandbits(48), lnops, R.quick, "lazy-het", None) for _ in range(180 if R.quick else 900)]
+    # they run first: the time budget below must never cut them off on a loaded machine
+    jobs = corpus + ljobs + jobs
     import multiprocessing as mp
+    from . import c04_lazy
     ctx = mp.get_context("fork")
     import hashlib
     unobservable, t0, done = 0, time.time(), 0
@@ -1398,13 +1420,14 @@ def main(R):
     def process(batch):
         """register one batch of histories and compare it with the model (then it is dropped: memory)"""
         lines, tds = [], []
+        llines, ltds = [], []
         for res in batch:
             case = res["case"]
             ops = [s_["op"]["op"] for s_ in case["ops"]]
             nested = any("t" in json.dumps(s_["op"]) for s_ in case["ops"])
             R.case(hashlib.sha1(json.dumps(case, sort_keys=True).encode()).hexdigest(),
                    nontrivial=len(ops) >= 3 and len(set(ops)) >= 2 and nested,
-                   sample={"subject": case.get("subject", "td"), "init": case["init"], "ops": [s_["op"] for s_ in case["ops"][:4]]})
+                   sample={"subject": case.get("subject", "td"), "init": case.get("init", case.get("members")), "ops": [s_["op"] for s_ in case["ops"][:4]]})
             for k, v in res["hist"].items():
                 R.count(k, v)
             for (label, c, detail, sig) in res["fails"]:
@@ -1414,6 +1437,30 @@ def main(R):
             if res["steps"] and case.get("subject", "td") == "td":
                 lines.append(history_line(dict(case, flags0=res["steps"][0]["flags"], probes0=res["steps"][0]["probes"])))
                 tds.append(res)
+            if res["steps"] and str(case.get("subject")).startswith("lazy-"):
+                llines.append(c04_lazy.lhistory_line(case))
+                ltds.append(res)
+        if ok and llines:
+            for res, m in zip(ltds, R.model(llines)):
+                if not (isinstance(m, list) and len(m) == len(res["steps"])):
+                    R.mismatch("lazy-history", res["case"], "n/a", repr(m)[:400])
+                    continue
+                for i_, (st, ms) in enumerate(zip(res["steps"], m)):
+                    if c04_lazy.has_unmodelled(ms):
+                        R.count("lz-model:declines(unmodelled)")
+                        break
+                    im = c04_lazy.impl_lstep_as_model(st)
+                    R.count("lz-model:steps-compared")
+                    if im != ms:
+                        j_ = next((x for x in range(min(len(im), len(ms))) if im[x] != ms[x]), 0)
+                        fld = c04_lazy.LFIELDS[j_]
+                        c = dict(res["case"], ops=res["case"]["ops"][:i_], failing_step=i_)
+                        if len(R.mismatches) < 200:
+                            R.mismatch(f"lazy-step:{st['op']['op'] if st['op'] else 'init'}:{fld}", c, repr(im[j_])[:600], repr(ms[j_])[:600])
+                        else:
+                            R.mismatches.append(("(more)", None, None, None))
+                        R.count("mismatch:lazy:" + (st['op']['op'] if st['op'] else 'init') + ":" + fld)
+                        break
         if not ok or not lines:
             return
         out = R.model(lines)
@@ -1437,7 +1484,7 @@ def main(R):
 
     batch = []
     with ctx.Pool(min(16, os.cpu_count() or 1)) as pool:
-        for res in pool.imap(run_history, jobs, chunksize=4):
+        for res in pool.imap(run_any, jobs, chunksize=4):
             batch.append(res)
             done += 1
             unobservable += 1 if not res["steps"] else 0
@@ -1456,6 +1503,9 @@ def main(R):
 def replay(body):
     _imports()
     case = body["case"]
+    if str(case.get("subject")).startswith("lazy-"):
+        from . import c04_lazy
+        return c04_lazy.replay_lazy(body)
     if case.get("regenerate"):
         # the history could not be recorded (an exception escaped): regenerate it from its seed
         res = run_history((case["hseed"], case["nops"], body.get("tier", "quick") == "quick", case.get("subject", "td"), None))
